@@ -1173,7 +1173,9 @@ func (o *Origin) call(c *ssa.Call) *Term {
 		}
 	}
 	t := &Term{Op: "call", Name: name, Args: args}
-	if !pureCallees[name] {
+	// generated Get* accessors are pure functions of their receiver: two calls on the same receiver are the same datum
+	genGetter := callee != nil && o.p.IsGenerated(callee) && strings.HasPrefix(callee.Name(), "Get") && len(args) == 1
+	if !pureCallees[name] && !genGetter {
 		t.Site = o.siteOf(c)
 	}
 	return t
